@@ -23,6 +23,24 @@ def opSValidate (raw : Impl.RawBoard) (impl : String) : String :=
     | none => bad "malformed"
   else bad "invalid raw board accepted"
 
+/-! ### two positions' semilegal moves appended to ONE fixed-capacity move list (C19) -/
+
+/-- `MoveList` holds `Gen.moveListCap` moves; its checked `push` panics when full -/
+def opMGenInto2 (raw1 raw2 : Impl.RawBoard) : String :=
+  match implBoard? raw1, implBoard? raw2 with
+  | some b1, some b2 =>
+    let n := (Impl.semilegalGen .all b1).length + (Impl.semilegalGen .all b2).length
+    if n ≤ Gen.moveListCap then "len=" ++ toString n else "panic"
+  | _, _ => "invalid"
+
+def opSGenInto2 (raw1 raw2 : Impl.RawBoard) (impl : String) : String :=
+  match specPos? raw1, specPos? raw2 with
+  | some p1, some p2 =>
+    let n := (Spec.pseudoMoves p1).length + (Spec.pseudoMoves p2).length
+    if n ≤ 256 then expect ("len=" ++ toString n) impl
+    else if impl == "panic" then ok else bad "more than 256 moves written into a 256-slot move list"
+  | _, _ => expect "invalid" impl
+
 /-! ### well-formedness bitmap -/
 
 def bitmapHex (f : Nat → Bool) : String :=
